@@ -19,6 +19,38 @@ type pkgEntry struct {
 	PkgIdent string // Go package identifier used in the bound expression ("" = local symbol)
 	Sel      string // selected (or local) identifier
 	File     string
+	Depth    int // pointer indirections of the registered type relative to the named symbol: & counts +1, .Elem() and * count -1
+}
+
+// ptrDepth counts the pointer indirections an entry expression adds to the symbol it names.
+func ptrDepth(e ast.Expr) int {
+	switch x := e.(type) {
+	case *ast.CallExpr:
+		if se, ok := x.Fun.(*ast.SelectorExpr); ok {
+			if se.Sel.Name == "Elem" {
+				return ptrDepth(se.X) - 1
+			}
+			if id, ok := se.X.(*ast.Ident); ok && id.Name == "reflect" && len(x.Args) == 1 {
+				return ptrDepth(x.Args[0])
+			}
+		}
+		if pe, ok := x.Fun.(*ast.ParenExpr); ok && len(x.Args) == 1 {
+			// conversion (*T)(nil)
+			return ptrDepth(pe.X)
+		}
+		return 0
+	case *ast.UnaryExpr:
+		if x.Op == token.AND {
+			return ptrDepth(x.X) + 1
+		}
+		return ptrDepth(x.X)
+	case *ast.StarExpr:
+		// a type expression *T (inside a conversion) adds one, a dereference removes one; only the former occurs in tables
+		return ptrDepth(x.X) + 1
+	case *ast.ParenExpr:
+		return ptrDepth(x.X)
+	}
+	return 0
 }
 
 // coreSelector finds the symbol an entry binds: pkg.Sel possibly wrapped in &, {}, (0), .Elem().
@@ -156,7 +188,7 @@ func readPackages() ([]pkgEntry, map[string]map[string]string, error) {
 						ferr = fmt.Errorf("%s: entry %s.%s binds an unrecognised expression", fi.Name(), pkg, key)
 						return false
 					}
-					entries = append(entries, pkgEntry{table, pkg, key, pi, sel, fi.Name()})
+					entries = append(entries, pkgEntry{table, pkg, key, pi, sel, fi.Name(), ptrDepth(kv.Value)})
 				}
 				return false
 			}
@@ -179,7 +211,7 @@ func readPackages() ([]pkgEntry, map[string]map[string]string, error) {
 						ferr = fmt.Errorf("%s: entry %s.%s binds an unrecognised expression", fi.Name(), pkg, key)
 						return false
 					}
-					entries = append(entries, pkgEntry{table, pkg, key, pi, sel, fi.Name()})
+					entries = append(entries, pkgEntry{table, pkg, key, pi, sel, fi.Name(), ptrDepth(as.Rhs[0])})
 				}
 			}
 			return true
@@ -229,6 +261,20 @@ func genPackages() (string, error) {
 			b.WriteString(",\n")
 		}
 		fmt.Fprintf(&b, "  ⟨%v, %s, %s, %s, %s⟩", e.Table == "type", leanStr(e.Package), leanStr(e.Key), leanStr(ip), leanStr(e.Sel))
+	}
+	b.WriteString("\n]\n\n")
+	b.WriteString("/-- (package, key, pointer indirections the registered type adds to the named Go type) for every type entry -/\n")
+	b.WriteString("def packageTypeDepths : List (String × String × Int) := [\n")
+	first := true
+	for _, e := range entries {
+		if e.Table != "type" {
+			continue
+		}
+		if !first {
+			b.WriteString(",\n")
+		}
+		first = false
+		fmt.Fprintf(&b, "  (%s, %s, %d)", leanStr(e.Package), leanStr(e.Key), e.Depth)
 	}
 	b.WriteString("\n]\n\nend Anko.Gen\n")
 	return b.String(), nil
